@@ -620,6 +620,19 @@ Resolve(v, st, d) ==
          [] v.k = "fnv"    -> [k |-> "fnv", id |-> v.id, sig |-> st.fns[v.id].sig]
          [] OTHER -> v
 
+\* machine value -> self-contained value of Types.tla (for Member); depth-bounded
+RECURSIVE TV(_, _, _)
+TV(v, st, d) ==
+  IF d = 0 THEN [k |-> "void"]
+  ELSE CASE v.k = "array"  -> [v EXCEPT !.es = [i \in 1..Len(v.es) |-> TV(v.es[i], st, d - 1)]]
+         [] v.k = "tuple"  -> [v EXCEPT !.es = [i \in 1..Len(v.es) |-> TV(v.es[i], st, d - 1)]]
+         [] v.k = "struct" -> [v EXCEPT !.fs = [f \in DOMAIN v.fs |-> TV(v.fs[f], st, d - 1)]]
+         [] v.k = "cell"   -> [k |-> "cell", ty |-> st.cells[v.id].ty, c |-> TV(st.cells[v.id].val, st, d - 1)]
+         [] v.k = "fnv"    -> [k |-> "fnv", sig |-> st.fns[v.id].sig]
+         [] OTHER -> v
+MemberS(v, ty, st) == Member(TV(v, st, 6), ty)
+CellsTyped(st) == \A i \in 1..Len(st.cells) : MemberS(st.cells[i].val, st.cells[i].ty, st)
+
 \* what an observer sees of a finished run
 Outcome(r) ==
   [status |-> IF r.sig = "ok" THEN "value"
@@ -628,4 +641,9 @@ Outcome(r) ==
               ELSE "stuck",
    v |-> IF r.sig = "ok" THEN Resolve(r.v, r.st, 6) ELSE r.v,
    log |-> [i \in 1..Len(r.st.cells[1].val.es) |-> r.st.cells[1].val.es[i].v]]
+
+\* the values of the given top-level names when the run ended (also after an error)
+Watch(r, names) == [i \in 1..Len(names) |->
+                      LET v == Lookup(r.env, names[i]) IN
+                      [n |-> names[i], v |-> IF v = NoneV THEN NoneV ELSE Resolve(v, r.st, 6)]]
 =============================================================================
